@@ -566,6 +566,29 @@ bool prop_C08(Tape& t, Report& rep)
         }
         return true;
     }
+    if (t.chance(1, 4))
+    {
+        // game flow on one table: search a (near-)mating position, then follow the announced line for two plies and search
+        // again, and again — every later search reads entries that the earlier ones wrote at another distance from the root
+        bool found;
+        ref::Pos root = t.flag() ? mate_in_one_root(t, rep, found) : forcing_back_rank(t, rep);
+        // back up a little so that the first search has a mate of several moves in front of it: start two plies earlier when possible
+        int steps = 2 + int(t.choose(3));
+        for (int s = 0; s < steps; ++s)
+        {
+            if (ref::legal_moves(root).empty()) break;
+            if (!c08_one(S, root, s == 0 ? "game_flow_first" : "game_flow_successor", s == 0 ? 3 + int(t.choose(uint32_t(MAXD - 2))) : 1 + int(t.choose(3)), history, rep)) return false;
+            std::vector<std::string> pv = g_c08_last_pv;
+            for (int k = 0; k < 2; ++k)
+            {
+                std::vector<ref::Move> lm = ref::legal_moves(root);
+                if (lm.empty()) break;
+                auto it = k < int(pv.size()) ? std::find_if(lm.begin(), lm.end(), [&](const ref::Move& m) { return m.uci() == pv[size_t(k)]; }) : lm.end();
+                root = ref::make(root, it != lm.end() ? *it : lm[t.choose(uint32_t(lm.size()))]);
+            }
+        }
+        return true;
+    }
     int nsearch = 1 + int(t.choose(3));
     ref::Pos prevRoot = ref::startpos();
     for (int si = 0; si < nsearch; ++si)
